@@ -166,7 +166,7 @@ CompatSeq(name) == CompatSeqBy[name]
 
 (* bounds of the two tiers (configuration files cannot state negative numbers / tuples) *)
 QuickExp2s == {-30, 0, 25}
-ThoroughExp2s == {-60, -30, -7, 0, 13, 25, 60}
+ThoroughExp2s == {-60, -30, 0, 13, 60}
 QuickMantSets == {<<3>>, <<1, -3, 7>>}
 ThoroughMantSets == {<<3>>, <<-5>>, <<1, -3, 7>>, <<7, 6, -5, 4, 3, -2, 1>>}
 QuickPows == {-2, -1, 2, 3}
